@@ -298,7 +298,7 @@ Definition tokens_of (sl : list tslice) (e : elem) : list seg :=
   | None => []
   end.
 
-(** * [iter_segments] as it was before the repair (fix 7ed96a0), for the [_refuted] lemmas.
+(** * [iter_segments] as it was before the repair (fix 7940035), for the [_refuted] lemmas.
     [idx] is the index of the head of [rest] in the slice list; the cursor only moves by one
     on an exact match; [checked] selects the overflow-checking build. *)
 Definition zadd (x : N) (off : Z) : N := Z.to_N (Z.of_N x + off).
